@@ -7,6 +7,7 @@
 (*   Expected    one record per SlottedCC state (from the REPLAY table of the  *)
 (*               MC_CC run over the same universe): key, and per pool term its *)
 (*               class label, non-redundant names and number of symmetries     *)
+(*               (pleaf / psize: the analysis data LeafOps / MinCost(astsize)) *)
 (*   OpPolicy ("fifo"/"lifo"), OpEager (insert the whole pool up front, or     *)
 (*               only the sides of the asserted equations)                     *)
 EXTENDS EGraphOp, Json
@@ -50,6 +51,10 @@ Refines ==
   IN /\ IF eqbad = {} THEN TRUE ELSE Say("equalities differ from the congruence", SetToSeq(eqbad))
      /\ IF slbad = {} THEN TRUE ELSE Say("slot sets differ", SetToSeq(slbad))
      /\ IF sybad = {} THEN TRUE ELSE Say("symmetry groups differ", SetToSeq(sybad))
+     /\ IF Analysis = "none" THEN TRUE
+        ELSE LET dbad == {t \in T : s.cls[FindA(s, h[t]).id].data #
+                                       (IF Analysis = "leaves" THEN Range(Exp.pleaf[t]) ELSE Exp.psize[t])}
+             IN IF dbad = {} THEN TRUE ELSE Say("analysis data are not the least fixpoint of make/merge", SetToSeq(dbad))
      /\ IF WellFormed(s) THEN TRUE ELSE Say("structural invariants violated", << >>)
      /\ IF WellFormed(st) THEN TRUE ELSE Say("structural invariants violated before observing", << >>)
 
